@@ -55,6 +55,9 @@ func (c *caseOrderChecker) checkTypeSwitch(s *ast.TypeSwitchStmt) {
 	var ifaces []ifaceType // Interfaces seen so far
 	for _, cc := range s.Body.List {
 		cc := cc.(*ast.CaseClause)
+		// Interfaces listed in this very clause shadow nothing in it:
+		// `case fmt.Stringer, T:` is entered for a T as well.
+		var clauseIfaces []ifaceType
 		for _, x := range cc.List {
 			typ := c.ctx.TypeOf(x)
 			if b, ok := typ.(*types.Basic); ok && b.Kind() == types.UntypedNil {
@@ -78,9 +81,10 @@ func (c *caseOrderChecker) checkTypeSwitch(s *ast.TypeSwitchStmt) {
 				continue
 			}
 			if iface, ok := typ.Underlying().(*types.Interface); ok {
-				ifaces = append(ifaces, ifaceType{node: x, typ: iface})
+				clauseIfaces = append(clauseIfaces, ifaceType{node: x, typ: iface})
 			}
 		}
+		ifaces = append(ifaces, clauseIfaces...)
 	}
 }
 
